@@ -48,7 +48,8 @@ class SpecSim(Sim):
         atoms += ['*:%s' % v for v in vers]
         atoms += ids + ['nope']
         atoms += ['nope:1', '%s:9.9' % ids[0], 'a*', 'a*:*', '*:1*', '?:*', 'a?:*', '[ab]*:*',
-                  'a[^b]*:*', '*b:*', '??:*', 'a?', '[a-b]', 'a-*', '*:*.*', '*:?']
+                  'a[^b]*:*', '*b:*', '??:*', 'a?', '[a-b]', 'a-*', '*:*.*', '*:?', '[!a]*:*',
+                  '[^z]*:*', 'a[!-]*:*', '*:[^1]*', '[]a]*:*']
         atoms = sorted(set(atoms))
         # a core asked in every store state (the same request must follow the store, whoever
         # changed it) + a seeded sample of the rest
